@@ -202,6 +202,12 @@ class Sandbox:
             finally:
                 self.drop_others(h)
             return None
+        if op == "jclear":          # Job.clear(): remove all job data but not the job (clears the document)
+            own.clear()
+            return None
+        if op == "jreset":
+            own.reset()
+            return None
         if op == "reinit":          # inside a block: remove and initialise again (the other handles hold no document object)
             own.remove()
             own.init()
@@ -492,6 +498,8 @@ def rand_ops(rnd, length, njobs, nh, maxnest=3, lifecycle=True):
             depth -= 1
         elif r < 0.24 and depth == 0 and lifecycle and h[0] != "p":
             evs.append({"op": rnd.choice(["remove", "rekey"]), "h": h})
+        elif r < 0.27 and lifecycle and h[0] != "p":
+            evs.append({"op": rnd.choice(["jclear", "jreset"]), "h": h})
         elif r < 0.40:
             evs.append({"op": "set", "h": h, "k": k, "v": val(), "sp": sp})
         elif r < 0.46:
